@@ -75,6 +75,8 @@ PROPS = {
         "bounded": [{"group": "ndarr", "name": "bounded_variant_dist_len3", "bound": "columns of length 3 over {A,C,G,T,-}, constant in {0,1,2,3}",
                      "args": ["-Z", "unstable-options", "--cbmc-args", "--unwindset", "memcmp.0:18"], "timeout": 1500}],
         "bounded_in_quick": True,
+        "bounded_thorough": [{"group": "ndarr", "name": "bounded_variant_dist_len4", "bound": "columns of length 4 over {A,C,G,T,-}, constant in {0,1,2,3}",
+                              "args": ["-Z", "unstable-options", "--cbmc-args", "--unwindset", "memcmp.0:18"], "timeout": 5400}],
     },
     "C15": {
         "level": "proof",
